@@ -393,10 +393,11 @@ func (cc *ClusterContext) updateSchedulerConfig(conf *configs.SchedulerConfig, r
 	}
 
 	// get the removed partitions, mark them as deleted
-	for _, part := range cc.partitions {
+	for name, part := range cc.partitions {
 		if !visited[part.Name] {
 			part.partitionManager.Stop()
-			log.Log(log.SchedContext).Info("marked partition for removal",
+			delete(cc.partitions, name)
+			log.Log(log.SchedContext).Info("removed partition",
 				zap.String("partitionName", part.Name))
 		}
 	}
@@ -902,6 +903,7 @@ func (cc *ClusterContext) Stop() {
 	log.Log(log.SchedContext).Info("Stopping background services of partitions")
 	for _, part := range cc.GetPartitionMapClone() {
 		part.partitionManager.Stop()
+		cc.removePartition(part.Name)
 		part.userGroupCache.Stop()
 	}
 }
